@@ -213,7 +213,7 @@ RULES = [
     ("EXPOSE", rule_expose, 10),
     ("BM-ORDER", rule_order, 20),
     ("NAME-GUARD", rule_guards, 1),
-    ("RETAIN-PRED", lambda ctx: None, 0),
+    ("RETAIN-PRED", lambda ctx: None, 3),
     ("TYPE-VALID", rule_typevalid, 4),
     ("QM-INV", rule_qminv, 8),
     ("CM-CANON", rule_cmcanon, 4),
